@@ -17,6 +17,7 @@ ASSUMPTIONS = ["ET.tostring escapes & < > in element text (trusted stdlib)"]
 
 def run(project, rep):
     rep.run(L.l_r1_decimal, project, rep)
+    rep.run(T.t_r6b_no_context_arithmetic, project, rep)
     rep.run(L.l_r2_escaping, project, rep)
     rep.run(L.l_r3_shapes, project, rep)
     rep.run(L.l_r4_list_elements, project, rep)
